@@ -258,7 +258,7 @@ func (c *Compiler) expandModule(module *parse.Module) {
 			if c.extensions != nil {
 				nc = c.extensions.NodeCardinality
 			}
-			c.addFakePathToNode(nc, applyToMod, applyToPath)
+			c.addFakePathToNode(nc, a, applyToMod, applyToPath)
 		}
 		allowedNodes := getAugmentableNodesForModule(applyToMod)
 		c.applyAugment(a, allowedNodes, applyToPath, schema.Current) //AGJ
@@ -353,6 +353,7 @@ func (c *Compiler) getDataDescendant(
 
 func (c *Compiler) addFakePathToNode(
 	extCard parse.NodeCardinality,
+	src parse.Node,
 	n parse.Node,
 	path []xml.Name,
 ) {
@@ -360,13 +361,15 @@ func (c *Compiler) addFakePathToNode(
 		return
 	}
 
-	next := c.getNext(n /* check! */, n.Children(), path[0])
+	// The prefixes of the path mean what the statement it is written on
+	// (src) says, not what the node being searched says
+	next := c.getNext(src, n.Children(), path[0])
 	if next == nil {
 		next = parse.NewFakeNodeByType(extCard, parse.NodeContainer, path[0].Local)
 		n.AddChildren(next)
 	}
 
-	c.addFakePathToNode(extCard, next, path[1:])
+	c.addFakePathToNode(extCard, src, next, path[1:])
 }
 
 func (c *Compiler) refinementIsValid(refine, applyToNode, refinement parse.Node) error {
